@@ -11,7 +11,7 @@
     checked against the built binary on generated trees by the check itself. *)
 From Coq Require Import Permutation.
 From GFS Require Import Base Pipeline PipelineProofs.
-From GFS Require Pad Seq Path Listing SpecListing Seqls WalkLts DiskProofs WalkProofs WalkSched SeqlsCover.
+From GFS Require Pad Seq Path Listing SpecListing Seqls WalkLts WalkFn GenWalkFn DiskProofs WalkProofs WalkSched WalkFnProofs SeqlsCover.
 From GFS Require Fastwalk GenFastwalk FastwalkProofs.
 
 Section C17.
@@ -57,7 +57,7 @@ Example complete_run :
             Permutation (printed s) (results PipelineExample.run1 PipelineExample.jobs1).
 Proof. exact PipelineExample.complete_run_exists. Qed.
 
-Import Pad Seq Path Listing SpecListing Seqls WalkLts DiskProofs WalkProofs WalkSched SeqlsCover.
+Import Pad Seq Path Listing SpecListing Seqls WalkLts WalkFn DiskProofs WalkProofs WalkSched WalkFnProofs SeqlsCover.
 
 (** ---- the directory walk (Model/Seqls.v), the model the check compares with the binary ---- *)
 
@@ -153,6 +153,47 @@ Theorem nested_links_listing_depends_on_the_schedule_refuted :
     wsteps t all (winit t all root real []) s2 /\ wfinal s2 /\
     ~ Permutation (ws_jobs s1) (ws_jobs s2).
 Proof. exact nested_links_schedule_dependence_refuted. Qed.
+
+(** ---- the callback seqls hands to fastwalk (loadRecursive's walkFn), TRANSLATED statement by
+    statement from cmd/seqls/manager.go on every run (Gen/GenWalkFn.v) and interpreted by
+    Model/WalkFn.v: per entry it decides exactly what one step of the walk model decides ---- *)
+
+(** job, traversal and cache of the translated callback = the clause of the walk model ([wnode]) *)
+Theorem translated_callback_is_the_walk_step : forall t n sp all gc mc paths ans em gc',
+  cache_rel gc mc paths ->
+  (tn_kind n = KLinkDir -> mem (tn_target n) paths = false) ->
+  callback_result GenWalkFn.callback
+                  (fst (kind_inputs (tn_kind n))) (snd (kind_inputs (tn_kind n)))
+                  (tn_target n) (join_path sp (tn_name n)) all [] gc = (ans, em, gc') ->
+  let path := join_path sp (tn_name n) in
+  let o := wnode t all sp n mc in
+  wo_jobs o = (if em then [(path, real_of n)] else []) /\
+  wo_new o = (if traverses (fst (kind_inputs (tn_kind n))) ans
+              then [mkWork path (children t (real_of n))] else []) /\
+  cache_rel gc' (wo_cache o) (if newly_followed n mc then path :: paths else paths).
+Proof. exact callback_is_wnode. Qed.
+
+(** the read-probe / write-lock-recheck protocol is linearizable: whatever other goroutines insert
+    between the probe and the lock, answer and emission are those of an atomic lookup-and-insert at
+    the moment the write lock is held (the atomic step the any-schedule model takes) *)
+Theorem cache_protocol_is_linearizable : forall typ sd tgt path all interf cache a e c a' e' c',
+  callback_result GenWalkFn.callback typ sd tgt path all interf cache = (a, e, c) ->
+  callback_result GenWalkFn.callback typ sd tgt path all [] (interf ++ cache) = (a', e', c') ->
+  a = a' /\ e = e' /\
+  (forall x, mem x c' = mem x interf || mem x c) /\
+  (typ = TSymlink -> sd = true -> mem tgt cache = false -> c = c').
+Proof. exact generated_callback_linearizable. Qed.
+
+(** files and links to files are never listed as directories, never read, never cached *)
+Theorem callback_ignores_non_directories : forall typ sd tgt path all interf cache,
+  typ = TOther \/ (typ = TSymlink /\ sd = false) ->
+  callback_result GenWalkFn.callback typ sd tgt path all interf cache = (ANil, false, cache) /\
+  traverses typ ANil = false.
+Proof. exact generated_callback_never_lists_a_file. Qed.
+
+Print Assumptions translated_callback_is_the_walk_step.
+Print Assumptions cache_protocol_is_linearizable.
+Print Assumptions callback_ignores_non_directories.
 
 (** ---- end to end on the model: `seqls -r dir` prints the strings of sequences that expand to
     exactly the visible files of exactly the reachable directories (C17's first clause, by
